@@ -61,13 +61,24 @@ RULE = ("(1) every one of the 2400 one-argument configurations (argument kind - 
         "characters; each string is classified by urllib.parse.urlparse and model.Origin themselves (url / missing / "
         "badurl / refusedurl) and run under --type auto and every explicit type with several option combinations, in "
         "process and (without NUL) through the real subprocess; the same strings appear as arguments of the "
-        "several-arguments route at any position")
+        "several-arguments route at any position; (4) the SPELLING of path arguments (file, directory, link to "
+        "either, git repository; both routes): plain, './x', 'x/.', 'x//', 'x/', 'p//x', 'd/../x' through a real "
+        "directory, '<link to a directory elsewhere>/../x' where the lexical collapse names a decoy (another file / "
+        "directory of the same name) or nothing, 'x/../x', each absolute and relative to the fixture root (working "
+        "directory changed and restored); the kind a spelling makes of an object is explicit (a trailing separator "
+        "on a link to a directory designates the directory whatever --no-dereference says; on a file it names "
+        "nothing), and the REFERENCE is always the library call on the canonical object - Directory.from_disk / "
+        "Content.from_file on os.path.realpath of the object, never on the spelling the command was given; printed "
+        "paths of a recursive listing are resolved by the operating system and matched against the canonical tree")
 TRUSTED = ["click option parsing, os.path.*, os.scandir, dulwich and git are modelled by a table per argument kind "
            "(model/Cli.v: isfile/isdir/islink/lstat/stat/urlparse scheme/urlparse raises/Origin refuses/is-a-git-repository), "
            "not verified; which kind a string argument has is decided by calling urlparse and model.Origin on it",
            "the identifiers themselves are the library's (Content.from_file/from_bytes, Directory.from_disk, "
            "Origin.swhid, Snapshot.swhid): C18 is about which object the command designates and what it prints"]
-ASSUMPTIONS = ["one-argument table: exactly one OBJECT argument; several-arguments route: any number, in scope when every "
+ASSUMPTIONS = ["the designated object of a path argument is the one the operating system resolves the spelling to "
+               "(os.path.realpath; the final component is kept when it is a link that must not be followed); the "
+               "reference identifiers are computed by the library on that canonical path",
+               "one-argument table: exactly one OBJECT argument; several-arguments route: any number, in scope when every "
                "argument is in scope under the shared options and --recursive is off (with several arguments the "
                "command applies -r to the first one and ignores the others: recorded as theorem "
                "C18_many_recursive_first_only, compared with the model, not counted as a violation); exclusion "
@@ -346,7 +357,7 @@ def build_fixture(fxspec):
     nonutf8 = bool(fxspec.get("nonutf8"))           # names inside the trees, link texts
     nonutf8_arg = bool(fxspec.get("nonutf8_arg"))   # names of the arguments themselves
     root = tempfile.mkdtemp(prefix="c18-").encode()
-    fx = {"root": root, "spec": dict(fxspec), "_dirs": {}}
+    fx = {"root": root, "spec": dict(fxspec), "_dirs": {}, "_trees": {}}
     try:
         used = set()
 
@@ -432,6 +443,25 @@ def build_fixture(fxspec):
             _git(r, "symbolic-ref", "refs/heads/alias-of-tag", "refs/tags/v1")
         if rng.random() < 0.5:
             _git(r, "pack-refs", "--all")
+        # spellings of path arguments: <realdir>/../x goes through a real directory; hop/ln is a link to the directory
+        # fixture, whose parent is the root, so hop/ln/../x IS root/x for the operating system, while the lexical
+        # collapse hop/x is a decoy (another file / directory of the same name) or nothing at all
+        fx["realdir"] = top(b"rd")
+        os.mkdir(fx["realdir"])
+        fx["hop"] = top(b"hop")
+        os.mkdir(fx["hop"])
+        os.symlink(os.path.join(b"..", os.path.basename(fx["dir"])), os.path.join(fx["hop"], b"ln"))
+        decoys = rng.sample(["file", "dir", "dir2", "gitrepo", "linkdir", "linkfile"], 3)
+        for kd in decoys:
+            dp = os.path.join(fx["hop"], os.path.basename(fx[kd]))
+            if kd in ("file", "linkfile"):
+                with open(dp, "wb") as f:
+                    f.write(b"decoy " + _rdata(rng))
+            else:
+                os.mkdir(dp)
+                with open(os.path.join(dp, b"decoy"), "wb") as f:
+                    f.write(_rdata(rng))
+        fx["decoys"] = decoys
         fx["ids"] = expected_ids(fx)
     except BaseException:
         shutil.rmtree(root, ignore_errors=True)
@@ -539,18 +569,88 @@ def obj_id(fx, kind, obj, excluded, argstr=None):
     raise KeyError(obj)
 
 
-def tree_nodes(fx, kind, excluded):
-    """(all node ids, {(id, path)} without deduplication) of the directory designated by an argument of kind `kind`,
-    walked from the path as the user gave it"""
-    arg = fx[kind]
-    d = _dir_id(arg, excluded)
-    pairs = set()
-    for node in d.iter_tree(dedup=False):
-        p = node.data["path"] if "path" in node.data else node.data["data"]
-        pairs.add((str(node.swhid()), os.fsdecode(p)))
-    dedup = [str(n.swhid()) for n in d.iter_tree()]
-    assert len(dedup) == len(set(dedup)) and set(dedup) == {i for i, _ in pairs}
-    return set(dedup), pairs
+def canonical_tree(fx, path, excluded, patterns=None):
+    """The library's tree of the CANONICAL object: Directory.from_disk on os.path.realpath(path) (never on the
+    spelling the command was given).  Returns (set of node ids, {(id, path relative to the top)}, canonical top)."""
+    top = os.path.realpath(path)
+    key = (top, bool(excluded), tuple(patterns) if patterns is not None else None)
+    if key not in fx["_trees"]:
+        d = _dir_id(top, excluded, patterns)
+        rel = set()
+        for node in d.iter_tree(dedup=False):
+            q = node.data["path"]
+            rel.add((str(node.swhid()), b"" if q == top else q[len(top) + 1:]))
+        dedup = [str(n.swhid()) for n in d.iter_tree()]
+        assert len(dedup) == len(set(dedup)) and set(dedup) == {i for i, _ in rel}
+        fx["_trees"][key] = (set(dedup), rel, top, str(d.swhid()))
+    return fx["_trees"][key]
+
+
+def canon_rel(p, top, base):
+    """path of a printed node relative to the canonical top: the directory part is resolved by the operating system
+    (os.path.realpath), the last component is kept (it may be a link inside the tree); None when outside the tree"""
+    if not os.path.isabs(p):
+        p = os.path.join(base, p)
+    d, b = os.path.split(p)
+    c = os.path.realpath(p) if b in (b"", b".", b"..") else os.path.join(os.path.realpath(d), b)
+    if c == top:
+        return b""
+    if c.startswith(top + b"/"):
+        return c[len(top) + 1:]
+    if os.path.realpath(p) == top:        # the argument itself, a link to the designated directory
+        return b""
+    return None
+
+
+# ------------------------------------------------------------------ spellings of a path argument
+TRAILING = ("slash", "dslash", "slashdot")
+TOP_ONLY = ("updir", "uplink")            # need the object to sit directly in the fixture root
+SPELLINGS = ["plain", "dotslash", "midslash", "updir", "uplink", "slash", "dslash", "slashdot", "dotdotself"]
+PATH_KINDS = ("file", "dir", "linkfile", "linkdir", "gitrepo")
+
+
+def spelled(fx, path, spell, rel):
+    """the argument (str) that spells the object at `path` (bytes, canonical spelling) the given way; rel: relative to
+    the fixture root, which is then the working directory of the run"""
+    parent, b = os.path.split(path)
+    if rel:
+        parent = b"" if parent == fx["root"] else parent[len(fx["root"]) + 1:]
+
+    def j(x):
+        return parent + b"/" + x if parent else x
+    plain = j(b)
+    if spell == "plain":
+        r = plain
+    elif spell == "dotslash":
+        r = j(b"./" + b)
+    elif spell == "midslash":
+        r = (parent if parent else b".") + b"//" + b
+    elif spell == "updir":
+        r = j(os.path.basename(fx["realdir"]) + b"/../" + b)
+    elif spell == "uplink":
+        r = j(os.path.basename(fx["hop"]) + b"/ln/../" + b)
+    elif spell == "slash":
+        r = plain + b"/"
+    elif spell == "dslash":
+        r = plain + b"//"
+    elif spell == "slashdot":
+        r = plain + b"/."
+    elif spell == "dotdotself":
+        r = plain + b"/../" + b
+    else:
+        raise KeyError(spell)
+    return os.fsdecode(r)
+
+
+def eff_kind(kind, spell):
+    """the kind of argument a spelling makes of an object: what follows a trailing separator is looked up INSIDE the
+    object, so a link to a directory is followed whatever --no-dereference says (the final component is not the link),
+    and a file or a link to a file so spelled does not exist"""
+    if spell in TRAILING:
+        return {"linkdir": "dir", "file": "missing", "linkfile": "missing"}.get(kind, kind)
+    if spell == "dotdotself":
+        return {"file": "missing", "linkfile": "missing"}.get(kind, kind)
+    return kind
 
 
 # ------------------------------------------------------------------ running the command
@@ -565,7 +665,7 @@ def kind_arg(fx, k, argstr=None):
     return os.fsdecode(fx[k])
 
 
-def cli_args(fx, cfg, row, argstr=None):
+def cli_args(fx, cfg, row, argstr=None, idk=None):
     k, t, d, f, r, v, x = cfg
     args = []
     if t != "auto" or fx["spec"].get("explicit_auto"):
@@ -585,7 +685,7 @@ def cli_args(fx, cfg, row, argstr=None):
             args += ["--exclude", p]
     if v != "none":
         dk, dx = row["des"].split(",")
-        good = obj_id(fx, k, dk, dx == "1", argstr) or PLACEHOLDER
+        good = obj_id(fx, idk or k, dk, dx == "1", None if idk else argstr) or PLACEHOLDER
         if v == "match":
             given = good
         else:
@@ -625,7 +725,7 @@ def canon_run(exit_code, stdout, exc):
     return res
 
 
-def run_inprocess(args, stdin):
+def run_inprocess(args, stdin, cwd=None):
     """click's CliRunner.  Its capture stream for stdout is a strict UTF-8 writer, whereas the standard output of a
     real process under the C/POSIX locale (the only ones on this machine) uses surrogateescape; the capture stream
     is given the same error handler so that printing a file name that is not valid UTF-8 behaves as in the real
@@ -645,9 +745,13 @@ def run_inprocess(args, stdin):
 
     logging.disable(logging.CRITICAL)
     click.testing._NamedTextIOWrapper = Tolerant
+    old = os.getcwd()
     try:
+        if cwd is not None:
+            os.chdir(cwd)                 # relative spellings: the working directory is changed and restored
         r = CliRunner().invoke(cli.identify, args, input=stdin)
     finally:
+        os.chdir(old)
         click.testing._NamedTextIOWrapper = base
         logging.disable(logging.NOTSET)
     exc = None
@@ -683,19 +787,33 @@ def impl(case):
         cfg = case["cfg"]
         row = table_row(cfg)
         argstr = case.get("argstr")
-        args, arg = cli_args(fx, cfg, row, argstr)
+        idk, cwd = None, None
+        if "path" in case:
+            # a spelling of a path object: cfg[0] is the kind the spelling makes of it (eff_kind), the identifiers come
+            # from the object itself
+            sp = case["path"]
+            idk = sp["obj"]
+            assert cfg[0] == eff_kind(idk, sp["spell"]), "case kind is not the effective kind of the spelling"
+            argstr = spelled(fx, fx[idk], sp["spell"], sp.get("rel"))
+            cwd = os.fsdecode(fx["root"]) if sp.get("rel") else None
+        args, arg = cli_args(fx, cfg, row, argstr, idk)
         stdin = fx["stdin"] if cfg[0] == "stdin" else None
         if case.get("sub"):
             run = run_subprocess(args, stdin, os.fsdecode(fx["root"]))
         else:
-            run = run_inprocess(args, stdin)
+            run = run_inprocess(args, stdin, cwd)
         res = {"run": run, "args": [a if a != arg else "<" + cfg[0] + ">" for a in args[:-1]] + ["<" + cfg[0] + ">"],
                "outcomes": {"model": row["model"], "spec": row["spec"]}}
-        if cfg[0] in STRING_KINDS:
+        if cfg[0] in STRING_KINDS or idk:
             res["argument"] = arg if len(arg) < 200 else arg[:80] + "...(%d characters)" % len(arg)
-        res["diff_model"] = diff(run, expected(fx, cfg, row["model"], argstr))
-        res["diff_spec"] = (res["diff_model"] if row["spec"] == row["model"]
-                            else diff(run, expected(fx, cfg, row["spec"], argstr)))
+        old = os.getcwd()
+        try:
+            os.chdir(fx["root"])          # relative spellings are looked at from the directory the command ran in
+            res["diff_model"] = diff(run, expected(fx, cfg, row["model"], argstr, idk))
+            res["diff_spec"] = (res["diff_model"] if row["spec"] == row["model"]
+                                else diff(run, expected(fx, cfg, row["spec"], argstr, idk)))
+        finally:
+            os.chdir(old)
         return res
     except Exception as e:
         import traceback
@@ -711,8 +829,9 @@ def canon_expected(texts):
     return sorted(ids), ids, len(pieces) - len(ids)
 
 
-def expected(fx, cfg, outcome, argstr=None):
-    """canonical observable that the outcome (a driver token such as print,dirpath,1,1,0) stands for"""
+def expected(fx, cfg, outcome, argstr=None, idk=None):
+    """canonical observable that the outcome (a driver token such as print,dirpath,1,1,0) stands for; idk: the object
+    of the fixture a spelled path designates (its identifiers are those of the canonical object)"""
     k = cfg[0]
     parts = outcome.split(",")
     if parts[0] == "usage":
@@ -735,11 +854,12 @@ def expected(fx, cfg, outcome, argstr=None):
     assert parts[0] == "print"
     obj, excluded, shown, listing = parts[1], parts[2] == "1", parts[3] == "1", parts[4] == "1"
     if not listing:
-        i = obj_id(fx, k, obj, excluded, argstr)
+        i = obj_id(fx, idk or k, obj, excluded, None if idk else argstr)
         lines, _, other = canon_expected([i + "\t" + arg if shown else i])
         return {"exit": 0, "lines": lines, "other_lines": other}
-    ids, pairs = tree_nodes(fx, k, excluded)
-    return {"exit": 0, "listing": True, "ids": ids, "pairs": pairs, "shown": shown, "other_lines": 0}
+    ids, rel, top, _ = canonical_tree(fx, fx[idk or k], excluded)
+    return {"exit": 0, "listing": True, "ids": ids, "rel": rel, "top": top, "base": fx["root"], "shown": shown,
+            "other_lines": 0}
 
 
 def diff(obs, exp):
@@ -764,9 +884,10 @@ def diff(obs, exp):
             return "recursive listing: %d identifiers printed, %d nodes in the library's tree; missing %s, extra %s" % (
                 len(gids), len(exp["ids"]), sorted(exp["ids"] - set(gids))[:2], sorted(set(gids) - exp["ids"])[:2])
         if exp["shown"]:
-            for p in pairs:
-                if p not in exp["pairs"]:
-                    return "recursive listing: line %r does not name a node with that identifier" % (p,)
+            for i, q in pairs:
+                r = canon_rel(os.fsencode(q), exp["top"], exp["base"]) if q is not None else None
+                if r is None or (i, r) not in exp["rel"]:
+                    return "recursive listing: line %r does not name a node of the designated directory with that identifier" % ((i, q),)
         elif any("\t" in l for l in got):
             return "file names printed despite --no-filename"
         if obs["other_lines"]:
@@ -798,19 +919,38 @@ GENERIC = ["sub*", "*/deep*", "empty*", "copy*", "only_*", "nomatch*", "*/only_*
 _MANY = {}
 
 
-def ref_arg(fx, ref):
-    """the command-line argument (str) for a reference"""
+def ref_path(fx, ref):
+    """canonical spelling (bytes) of the path a reference names"""
+    return fx["linkdir_target"] if ref == "lt" else fx[ref]
+
+
+def ref_arg(fx, ref, spell="plain", rel=0):
+    """the command-line argument (str) for a reference, spelled the given way"""
     if ref == "stdin":
         return "-"
     if ref in STRING_REFS:
         return fx[ref]
-    return os.fsdecode(fx["linkdir_target"] if ref == "lt" else fx[ref])
+    return spelled(fx, ref_path(fx, ref), spell, rel)
+
+
+def m_spell(m, i):
+    sp = m.get("spells")
+    return sp[i] if sp else "plain"
+
+
+def m_kind(m, i):
+    """kind of the i-th argument for the model: the kind its spelling makes of the object"""
+    return eff_kind(REF_KIND[m["args"][i]], m_spell(m, i))
+
+
+def m_arg(fx, m, i):
+    return ref_arg(fx, m["args"][i], m_spell(m, i), m.get("rel", 0))
 
 
 def many_req(m):
     return "many %s %d %d %d %s %d %s" % (m["type"], m["deref"], m["fname"], m["recur"], m["ver"],
                                            1 if m["patterns"] else 0,
-                                           ",".join(REF_KIND[r] for r in m["args"]) or ".")
+                                           ",".join(m_kind(m, i) for i in range(len(m["args"]))) or ".")
 
 
 def parse_many(line):
@@ -833,14 +973,12 @@ def prefetch_many(cases):
 
 
 def ref_dir(fx, ref, patterns):
-    """(library Directory, walked from the argument as given) for a directory-like reference, cached"""
-    key = (ref, tuple(patterns))
-    if key not in fx["_dirs"]:
-        fx["_dirs"][key] = _dir_id(os.fsencode(ref_arg(fx, ref)), bool(patterns), list(patterns))
-    return fx["_dirs"][key]
+    """(ids, relative (id, path) pairs, canonical top, root id) of the library's tree for the CANONICAL directory a
+    reference designates (os.path.realpath of it), with the library's own pattern filter rooted there"""
+    return canonical_tree(fx, ref_path(fx, ref), bool(patterns), list(patterns))
 
 
-def ref_obj_id(fx, ref, obj, excluded, patterns):
+def ref_obj_id(fx, ref, obj, excluded, patterns, arg=None):
     """the identifier the library computes for designation `obj` of the argument `ref`"""
     from swh.model import model as M
     ids = fx["ids"]
@@ -852,9 +990,9 @@ def ref_obj_id(fx, ref, obj, excluded, patterns):
     if obj in ("empty", "stdin", "snapshot"):
         return ids[obj]
     if obj in ("dirpath", "dirtarget"):
-        return str(ref_dir(fx, ref, patterns if excluded else []).swhid())
+        return ref_dir(fx, ref, patterns if excluded else [])[3]
     if obj == "origin":
-        return origin_id(ref_arg(fx, ref))
+        return origin_id(arg if arg is not None else ref_arg(fx, ref))
     raise KeyError(obj)
 
 
@@ -874,13 +1012,13 @@ def many_args(fx, m):
     if m["ver"] != "none":
         good = fx["ids"]["pathcontent"]
         if len(m["args"]) == 1:
-            row = table_row([REF_KIND[m["args"][0]], m["type"], m["deref"], m["fname"], m["recur"], m["ver"],
+            row = table_row([m_kind(m, 0), m["type"], m["deref"], m["fname"], m["recur"], m["ver"],
                              1 if m["patterns"] else 0])
             dk, dx = row["des"].split(",")
             if dk not in ("nothing", "refused"):
-                good = ref_obj_id(fx, m["args"][0], dk, dx == "1", m["patterns"]) or good
+                good = ref_obj_id(fx, m["args"][0], dk, dx == "1", m["patterns"], m_arg(fx, m, 0)) or good
         args += ["--verify", good if m["ver"] == "match" else non_matching(good, len(m["args"]))]
-    objs = [ref_arg(fx, r) for r in m["args"]]
+    objs = [m_arg(fx, m, i) for i in range(len(m["args"]))]
     if any(o.startswith("-") and o != "-" for o in objs):
         args.append("--")
         opts = opts + ["--"]
@@ -895,28 +1033,26 @@ def expected_many(fx, m, run):
     if end.startswith("crash"):
         exp["exc"] = end.split(",")[1]
     if len(lines) == 1 and lines[0][3] == "1":         # -r: the listing of the FIRST argument
-        ref = m["args"][0]
-        d = ref_dir(fx, ref, m["patterns"] if lines[0][1] == "1" else [])
-        pairs = {(str(n.swhid()), os.fsdecode(n.data["path"])) for n in d.iter_tree(dedup=False)}
-        exp.update({"listing": True, "ids": {i for i, _ in pairs}, "pairs": pairs, "shown": lines[0][2] == "1"})
+        ids, rel, top, _ = ref_dir(fx, m["args"][0], m["patterns"] if lines[0][1] == "1" else [])
+        exp.update({"listing": True, "ids": ids, "rel": rel, "top": top, "base": fx["root"], "shown": lines[0][2] == "1"})
         return exp
     out = []
-    for ref, (obj, ex, sh, ls) in zip(m["args"], lines):
-        i = ref_obj_id(fx, ref, obj, ex == "1", m["patterns"])
+    for k, (ref, (obj, ex, sh, ls)) in enumerate(zip(m["args"], lines)):
+        i = ref_obj_id(fx, ref, obj, ex == "1", m["patterns"], m_arg(fx, m, k))
         if i is None:                                  # -t origin <something model.Origin refuses> (out of scope):
             exp.update({"exit": 2})                    # the usage error of a refused URL, after the lines before it
             exp.pop("exc", None)
             exp.pop("other_lines", None)
             end = "usage"
             break
-        out.append(i + "\t" + ref_arg(fx, ref) if sh == "1" else i)
+        out.append(i + "\t" + m_arg(fx, m, k) if sh == "1" else i)
     if (end in ("exit0", "exit1") and m["type"] == "origin" and REF_KIND[m["args"][0]] != "stdin"
-            and origin_id(ref_arg(fx, m["args"][0])) is None):
+            and origin_id(m_arg(fx, m, 0)) is None):
         exp.update({"exit": 2})                                  # same out-of-scope case under --verify
     if end.startswith("crash") and m["type"] in ("content", "directory") and len(lines) < len(m["args"]):
-        bad = m["args"][len(lines)]
-        if REF_KIND[bad] in STRING_KINDS:                        # which error a string that is no path gets: ask the library
-            exp["exc"] = library_error(m["type"], ref_arg(fx, bad), bool(m["patterns"])) or exp["exc"]
+        bad = len(lines)
+        if m_kind(m, bad) in STRING_KINDS:                       # which error a string that is no path gets: ask the library
+            exp["exc"] = library_error(m["type"], m_arg(fx, m, bad), bool(m["patterns"])) or exp["exc"]
     _, exp["ordered"], other = canon_expected(out)
     if end != "done":
         exp.pop("other_lines", None)
@@ -948,25 +1084,33 @@ def impl_many(case):
     row = many_row(m)
     args, opts = many_args(fx, m)
     stdin = fx["stdin"] if "stdin" in m["args"] else None
+    cwd = os.fsdecode(fx["root"]) if m.get("rel") else None
     if case.get("sub"):
         run = run_subprocess(args, stdin, os.fsdecode(fx["root"]))
     else:
-        run = run_inprocess(args, stdin)
-    shown = ["<%s>" % r for r in m["args"]]
+        run = run_inprocess(args, stdin, cwd)
+    shown = ["<%s%s>" % (r, "" if m_spell(m, i) == "plain" else ":" + m_spell(m, i)) for i, r in enumerate(m["args"])]
     res = {"run": run, "args": args[:len(args) - len(m["args"])] + shown,
            "outcomes": {"model": row["model"], "spec": row["spec"]}}
-    res["diff_model"] = diff_many(run, expected_many(fx, m, row["model"]))
-    if row["inscope"] != "1":
-        res["diff_spec"] = None            # the property says nothing; the model is still compared
-    elif row["spec"] == row["model"]:
-        res["diff_spec"] = res["diff_model"]
-    else:
-        res["diff_spec"] = diff_many(run, expected_many(fx, m, row["spec"]))
+    if m.get("spells"):
+        res["arguments"] = [a if len(a) < 200 else a[:80] + "..." for a in args[len(args) - len(m["args"]):]]
+    old = os.getcwd()
+    try:
+        os.chdir(fx["root"])               # relative spellings are looked at from the directory the command ran in
+        res["diff_model"] = diff_many(run, expected_many(fx, m, row["model"]))
+        if row["inscope"] != "1":
+            res["diff_spec"] = None            # the property says nothing; the model is still compared
+        elif row["spec"] == row["model"]:
+            res["diff_spec"] = res["diff_model"]
+        else:
+            res["diff_spec"] = diff_many(run, expected_many(fx, m, row["spec"]))
+    finally:
+        os.chdir(old)
     # the same arguments, one invocation each, same options: in scope the lines must be the same, in order
     if row["inscope"] == "1" and m["ver"] == "none" and not m["recur"] and len(m["args"]) > 1 and not res["diff_model"]:
         alone, alone_exit = [], 0
-        for r in m["args"]:
-            one = run_inprocess(opts + [ref_arg(fx, r)], fx["stdin"] if r == "stdin" else None)
+        for k, r in enumerate(m["args"]):
+            one = run_inprocess(opts + [m_arg(fx, m, k)], fx["stdin"] if r == "stdin" else None, cwd)
             if one.get("exc"):
                 alone = None
                 res["diff_alone"] = "argument %s alone: unhandled %s" % (r, one.get("exc"))
@@ -1060,6 +1204,20 @@ def gen_many(rng, fx, n):
                 seen = True
             out.append(r)
         m["args"] = out
+        if rng.random() < 0.45:
+            # spell the path arguments: trailing separators, ./, //, d/../x through a real directory and through a link
+            # to a directory elsewhere (decoy or nothing at the lexical collapse); all relative to the root or absolute
+            spells = []
+            for r in out:
+                if r in STRING_REFS or r == "stdin" or rng.random() < 0.3:
+                    spells.append("plain")
+                    continue
+                pool = [q for q in SPELLINGS if q != "plain" and (q not in TOP_ONLY or r not in ("dir_sub", "dir_other"))]
+                if REF_KIND[r] in ("file", "linkfile"):
+                    pool = [q for q in pool if eff_kind(REF_KIND[r], q) != "missing" or rng.random() < 0.1]
+                spells.append(rng.choice(pool + ["uplink"] * (0 if r in ("dir_sub", "dir_other") else 3)))
+            m["spells"] = spells
+            m["rel"] = rng.choice([0, 1])
         cases.append({"fx": fx, "multi": m})
     return cases
 
@@ -1084,16 +1242,41 @@ def gen(rng, tier):
             if tier == "quick" and s > 0 and c[0] in ("missing", "badurl", "refusedurl"):
                 continue          # quick tier: the rows of the string kinds once (the string route varies the strings)
             cases.append({"fx": fx, "cfg": c})
-        for c in rng.sample(cfgs, 20 if tier == "quick" else 40):
+        for c in rng.sample(cfgs, 20 if tier == "quick" else 25):
             cases.append({"fx": fx, "cfg": c, "sub": 1})
         if s == 0 or (tier == "thorough" and s < 5):
             cases += gen_strings(rng, fx, tier)
+        cases += gen_spellings(rng, fx, tier)
         many = gen_many(rng, fx, 200 if tier == "quick" else 1500)
-        for c in rng.sample(many, 4 if tier == "quick" else 25):
+        for c in rng.sample(many, 4 if tier == "quick" else 15):
             many.append({"fx": fx, "multi": c["multi"], "sub": 1})
         cases += many
     prefetch_many(cases)
     return cases
+
+
+def gen_spellings(rng, fx, tier):
+    """every path object x every spelling (x relative to the fixture root as working directory) under a handful of
+    option combinations: automatic and matching explicit type, with and without --dereference, --recursive, --verify
+    with the identifier of the canonical object, --exclude; a few through the real subprocess"""
+    cases, subs = [], []
+    for obj in PATH_KINDS:
+        natural = {"file": "content", "linkfile": "content", "dir": "directory", "linkdir": "directory", "gitrepo": "directory"}[obj]
+        for spell in SPELLINGS:
+            k = eff_kind(obj, spell)
+            for rel in (0, 1):
+                combos = [("auto", 1, 1, 0, "none", 0), ("auto", 0, 0, 0, "match", 1), (natural, 1, 1, 1, "none", 1),
+                          ("auto", 1, 0, 1, "none", 0), (natural, 0, 1, 0, "match", 0), ("auto", 0, 1, 1, "nonmatch", 0)]
+                if tier == "quick":
+                    combos = [combos[0]] + rng.sample(combos[1:], 2 if spell in ("uplink", "dotdotself", "slash") else 1)
+                for (t, d, f, r, v, x) in combos:
+                    if k == "missing":
+                        t = rng.choice(["auto", "auto", natural])
+                    c = {"fx": fx, "cfg": [k, t, d, f, r, v, x], "path": {"obj": obj, "spell": spell, "rel": rel}}
+                    cases.append(c)
+                    if spell != "plain":
+                        subs.append(dict(c, sub=1))
+    return cases + rng.sample(subs, 4 if tier == "quick" else 15)
 
 
 def gen_strings(rng, fx, tier):
@@ -1114,7 +1297,7 @@ def gen_strings(rng, fx, tier):
         if "\x00" not in st:
             subs.append({"fx": fx, "cfg": [kd, rng.choice(["auto", "auto", "origin", "content"]), 1, 1, 0, "none", 0],
                          "argstr": st, "sub": 1})
-    return cases + rng.sample(subs, min(len(subs), 8 if tier == "quick" else 40))
+    return cases + rng.sample(subs, min(len(subs), 8 if tier == "quick" else 20))
 
 
 def nontrivial(c):
@@ -1123,7 +1306,8 @@ def nontrivial(c):
         return len(m["args"]) >= 2 and ((m["type"] != "auto") + (not m["deref"]) + (not m["fname"]) + bool(m["recur"])
                                         + (m["ver"] != "none") + bool(m["patterns"]) >= 1)
     k, t, d, f, r, v, x = c["cfg"]
-    return (t != "auto") + (not d) + (not f) + bool(r) + (v != "none") + bool(x) >= 2
+    spelt = "path" in c and (c["path"]["spell"] != "plain" or c["path"].get("rel"))
+    return (t != "auto") + (not d) + (not f) + bool(r) + (v != "none") + bool(x) + bool(spelt) >= 2
 
 
 def classify(c):
@@ -1143,11 +1327,19 @@ def classify(c):
             ks.append("several:verify")
         if c.get("sub"):
             ks.append("subprocess")
+        for q in set(m.get("spells") or []):
+            if q != "plain":
+                ks.append("several:spelling=" + q)
+        if m.get("rel"):
+            ks.append("several:relative")
         return ks
     k, t, d, f, r, v, x = c["cfg"]
     row = table_row(c["cfg"])
     ks = ["kind=" + k, "type=" + t, "model=" + row["model"].split(",")[0],
           "in-scope" if row["inscope"] == "1" else "out-of-scope"]
+    if "path" in c:
+        ks.append("spelling=%s%s" % (c["path"]["spell"], ":relative" if c["path"].get("rel") else ""))
+        ks.append("spelt:%s->%s" % (c["path"]["obj"], k))
     if "argstr" in c:
         st = c["argstr"]
         ks.append("string-argument")
@@ -1212,19 +1404,34 @@ def shrink(c):
             yield mk()
         for i in range(len(m["args"])):
             if len(m["args"]) > 1:
-                yield mk(args=m["args"][:i] + m["args"][i + 1:])
+                if m.get("spells"):
+                    yield mk(args=m["args"][:i] + m["args"][i + 1:], spells=m["spells"][:i] + m["spells"][i + 1:])
+                else:
+                    yield mk(args=m["args"][:i] + m["args"][i + 1:])
+        if m.get("spells"):
+            for i, q in enumerate(m["spells"]):
+                if q != "plain":
+                    sp = list(m["spells"])
+                    sp[i] = "plain"
+                    if eff_kind(REF_KIND[m["args"][i]], q) == REF_KIND[m["args"][i]]:
+                        yield mk(spells=sp)
+            if m.get("rel"):
+                yield mk(rel=0)
         for i in range(len(m["patterns"])):
             yield mk(patterns=m["patterns"][:i] + m["patterns"][i + 1:])
         for key, dflt in (("type", "auto"), ("deref", 1), ("fname", 1), ("recur", 0), ("ver", "none")):
             if m[key] != dflt:
                 yield mk(**{key: dflt})
-        for i, r in enumerate(m["args"]):
-            for simpler in ("dir", "file"):
-                if r != simpler and REF_KIND[r] == REF_KIND[simpler]:
-                    yield mk(args=m["args"][:i] + [simpler] + m["args"][i + 1:])
+        if not m.get("spells"):
+            for i, r in enumerate(m["args"]):
+                for simpler in ("dir", "file"):
+                    if r != simpler and REF_KIND[r] == REF_KIND[simpler]:
+                        yield mk(args=m["args"][:i] + [simpler] + m["args"][i + 1:])
         return
     k, t, d, f, r, v, x = c["cfg"]
     extra = {"argstr": c["argstr"]} if "argstr" in c else {}
+    if "path" in c:
+        extra["path"] = c["path"]
     if c.get("sub"):
         yield dict({"fx": c["fx"], "cfg": c["cfg"]}, **extra)
     for i, dflt in ((1, "auto"), (2, 1), (3, 1), (4, 0), (5, "none"), (6, 0)):
